@@ -46,6 +46,14 @@ class Ctor:
         return hash((self.name, repr(self.args)))
 
 
+def tup(*xs):
+    """Coq's (a, b, c) is the left-nested pair ((a, b), c): always build 2-tuples"""
+    t = xs[0]
+    for x in xs[1:]:
+        t = (t, x)
+    return t
+
+
 class Nat(int):
     pass
 
@@ -68,7 +76,7 @@ def to_coq(v) -> str:
     if isinstance(v, int):
         return f'({int(v)})' if v < 0 else str(int(v))
     if isinstance(v, Fraction):
-        return f'(({v.numerator}) # {v.denominator})'
+        return f'(Qmake ({v.numerator}) {v.denominator})'
     if isinstance(v, list):
         return '[' + '; '.join(to_coq(x) for x in v) + ']'
     if isinstance(v, tuple):
@@ -186,7 +194,7 @@ class _P:
                 if (k, v) != ('p', ','):
                     raise ValueError(f'expected , or ) got {v!r}')
                 items.append(self.term())
-            return items[0] if len(items) == 1 else tuple(items)
+            return tup(*items)
         raise ValueError(f'unexpected token {val!r}')
 
 
